@@ -45,12 +45,19 @@ IsInit(r) == r.shape \in {"init", "initerr"}
 NOuts(r) == Len(OutsOf(r))
 
 RegIds(cfg) == {cfg.regs[i].id : i \in DOMAIN cfg.regs}
+
+\* Outputs taken out of the collection again (Remove / RemoveKeyed right after the Add call, before Build).
+\* A removed output provides nothing; a registration all of whose outputs were removed is dead: its
+\* constructor never runs and its dependencies do not count.  The field is optional in the records.
+Rm(r) == IF "rm" \in DOMAIN r THEN {r.rm[i] : i \in DOMAIN r.rm} ELSE {}     \* rm is a sequence of output indices
 Reg(cfg, id) == cfg.regs[CHOOSE i \in DOMAIN cfg.regs : cfg.regs[i].id = id]
 LifeOf(cfg, id) == Reg(cfg, id).life
 
 \* all (reg index, out index) pairs in registration order
 OutPairs(cfg) == {<<i, o>> : i \in DOMAIN cfg.regs, o \in 1..3} \cap
-                 {<<i, o>> \in (DOMAIN cfg.regs) \X (1..3) : o <= NOuts(cfg.regs[i])}
+                 {<<i, o>> \in (DOMAIN cfg.regs) \X (1..3) : o <= NOuts(cfg.regs[i]) /\ o \notin Rm(cfg.regs[i])}
+LiveReg(cfg, id) == LET r == Reg(cfg, id) IN IsInit(r) \/ \E o \in 1..NOuts(r) : o \notin Rm(r)
+LiveRegIds(cfg) == {id \in RegIds(cfg) : LiveReg(cfg, id)}
 
 \* who provides the non-group identity (t,k): <<reg id, out index>> or <<>>
 Providers(cfg, t, k) ==
@@ -93,20 +100,20 @@ ReachRegs(cfg, frontier, seen) ==
          IN ReachRegs(cfg, nxt, seen \cup nxt)
 TransDeps(cfg, id) == ReachRegs(cfg, DepsOfReg(cfg, id), DepsOfReg(cfg, id))
 
-Cyclic(cfg) == \E id \in RegIds(cfg) : id \in TransDeps(cfg, id)
+Cyclic(cfg) == \E id \in LiveRegIds(cfg) : id \in TransDeps(cfg, id)
 
 \* a required (non-optional, non-builtin, non-group) parameter nobody provides
 MissingParam(cfg, p) == ~IsBuiltin(p) /\ ~IsGroupParam(p) /\ ~p.opt /\ ~HasProvider(cfg, p.t, p.k)
-Missing(cfg) == \E id \in RegIds(cfg) : \E j \in DOMAIN Reg(cfg, id).params : MissingParam(cfg, Reg(cfg, id).params[j])
+Missing(cfg) == \E id \in LiveRegIds(cfg) : \E j \in DOMAIN Reg(cfg, id).params : MissingParam(cfg, Reg(cfg, id).params[j])
 
 \* a singleton or transient that declares a dependency whose registration is scoped
-Conflict(cfg) == \E id \in RegIds(cfg) :
+Conflict(cfg) == \E id \in LiveRegIds(cfg) :
     /\ LifeOf(cfg, id) # "scoped"
     /\ \E d \in DepsOfReg(cfg, id) : LifeOf(cfg, d) = "scoped"
 
 \* registrations whose constructor runs during Build: singletons, root-scope initializers and
 \* everything they (transitively) consume
-EagerRoots(cfg) == {id \in RegIds(cfg) : LifeOf(cfg, id) = "singleton" \/ (IsInit(Reg(cfg, id)) /\ LifeOf(cfg, id) = "scoped")}
+EagerRoots(cfg) == {id \in LiveRegIds(cfg) : LifeOf(cfg, id) = "singleton" \/ (IsInit(Reg(cfg, id)) /\ LifeOf(cfg, id) = "scoped")}
 EagerRegs(cfg) == EagerRoots(cfg) \cup UNION {TransDeps(cfg, id) : id \in EagerRoots(cfg)}
 EagerFault(cfg) == \E f \in Range(cfg.faults) : f.reg \in EagerRegs(cfg)
 
@@ -216,11 +223,12 @@ ApplyCtor(st, e) ==
         recs   == [i \in newIds |->
                      LET o == CHOOSE x \in DOMAIN e.outs : e.outs[x] = i IN
                      [reg |-> e.reg, out |-> o, outs |-> {x \in DOMAIN e.outs : e.outs[x] = i}, inv |-> e.inv, owner |-> owner, life |-> life,
-                      disp |-> DispOf(st.cfg, e.reg, o), born |-> st.clock + 1, closed |-> 0]]
+                      disp |-> DispOf(st.cfg, e.reg, o) /\ o \notin Rm(r), born |-> st.clock + 1, closed |-> 0]]
+        kept   == DOMAIN e.outs \ Rm(r)      \* the value of a removed output is not a service: it is dropped
     IN [st EXCEPT
           !.inst   = recs @@ @,
-          !.sing   = IF ok /\ life = "singleton" THEN @ \cup {<<e.reg, o, e.outs[o]>> : o \in DOMAIN e.outs} ELSE @,
-          !.cache  = IF ok /\ life = "scoped" THEN @ \cup {<<e.scope, e.reg, o, e.outs[o]>> : o \in DOMAIN e.outs} ELSE @,
+          !.sing   = IF ok /\ life = "singleton" THEN @ \cup {<<e.reg, o, e.outs[o]>> : o \in kept} ELSE @,
+          !.cache  = IF ok /\ life = "scoped" THEN @ \cup {<<e.scope, e.reg, o, e.outs[o]>> : o \in kept} ELSE @,
           !.handed = @ \cup used,
           !.fresh  = (@ \ Siblings(st, used)) \cup (IF life = "transient" THEN newIds ELSE {}),
           !.runs   = [@ EXCEPT ![e.reg] = @ + 1],
@@ -345,10 +353,17 @@ GuardsCtor(st, e) ==
           ELSE {})
     \cup {G("transient_args_fresh", {"C03"},
             \A i \in TransientIds(st, used) : i \notin st.handed /\ i \in st.fresh, NONE),
+          \* every injection site gets its own transient instance: none occurs at two positions of one call
+          \* (two parameters / fields, or twice inside one group slice); outputs of one invocation may share a call
+          G("transient_args_distinct", {"C03"},
+            \A i \in TransientIds(st, used) :
+                Cardinality({<<j, x>> \in UNION {{<<jj, xx>> : xx \in DOMAIN e.args[jj].ids} : jj \in DOMAIN e.args} :
+                                 e.args[j].ids[x] = i}) = 1, NONE),
           G("no_captive_scoped", {"C07"},
             life # "scoped" => \A i \in used : st.inst[i].life # "scoped", NONE),
           G("no_foreign_args", {"C04"}, \A j \in DOMAIN e.args : e.args[j].k # "foreign", NONE),
-          G("outs_count", {"C04"}, ok => Len(e.outs) = NOuts(r), NONE)}
+          G("outs_count", {"C04"}, ok => Len(e.outs) = NOuts(r), NONE),
+          G("removed_registration_never_runs", {"C17"}, LiveReg(st.cfg, e.reg), NONE)}
 
 \* ---- instance Close ---------------------------------------------------------------------
 CloserCovers(st, i) ==      \* is the call in progress entitled to close instance i ?
@@ -393,7 +408,7 @@ FailClassOK(c, err) ==
 \* a failing construction of an OPTIONAL dependency is swallowed by the container (the field stays zero):
 \* registrations reachable through an optional parameter may fail without the call failing
 OptTargets(cfg) == UNION {UNION {IF Reg(cfg, id).params[j].opt THEN ParamTargets(cfg, Reg(cfg, id).params[j]) ELSE {}
-                                 : j \in DOMAIN Reg(cfg, id).params} : id \in RegIds(cfg)}
+                                 : j \in DOMAIN Reg(cfg, id).params} : id \in LiveRegIds(cfg)}
 OptReach(cfg) == OptTargets(cfg) \cup UNION {TransDeps(cfg, id) : id \in OptTargets(cfg)}
 Failed(c) == c.failed \in {"err", "panic"}
 FailureReported(st, c, err) ==
@@ -412,12 +427,13 @@ GuardsRetBuild(st, e) ==
      G("conflict_rejected", {"C07"}, (Conflict(cfg) /\ NDefects(cfg) = 1) => "lifetimeConflict" \in err, NONE),
      G("conflict_only_if_conflict", {"C07"}, "lifetimeConflict" \in err => Conflict(cfg), NONE),
      G("buildable_accepted", {"C08", "C06"}, (Buildable(cfg) /\ ~EagerFault(cfg)) => ok, NONE),
+     G("missing_rejected", {"C08"}, Missing(cfg) => ~ok, NONE),
      G("eager_failure_reported", {"C15"}, FailureReported(st, st.cur, err), NONE),
      G("failed_build_closes_all", {"C10"}, ~ok => AllClosed(st, {i \in InstIds(st) : st.inst[i].disp /\ st.inst[i].inv # 0}), NONE),
      G("ok_build_closes_nothing", {"C10"}, ok => st.cur.ncl = 0, NONE),
      G("no_pending_transients", {"C03"}, ok => st.fresh = {}, NONE),
      G("singletons_all_constructed", {"C01"},
-        ok => \A id \in RegIds(cfg) : (LifeOf(cfg, id) = "singleton" /\ Reg(cfg, id).shape # "inst") => st.runs[id] >= 1, NONE)}
+        ok => \A id \in LiveRegIds(cfg) : (LifeOf(cfg, id) = "singleton" /\ Reg(cfg, id).shape # "inst") => st.runs[id] >= 1, NONE)}
 
 ExpectResolveErr(st, c) ==     \* the disposed verdict a resolve/create on scope c.sc must give, or NONE
     IF c.sc = "prov" THEN (IF ~c.provOpen THEN "providerDisposed" ELSE NONE)
@@ -546,7 +562,11 @@ AbuseTable ==
      closed_scope_resolve |-> AE({"scopeDisposed"}), provider_close |-> AOK, provider_close_again |-> AOK,
      closed_provider_get |-> AE({"providerDisposed"}), closed_provider_getkeyed |-> AE({"providerDisposed"}),
      closed_provider_getgroup |-> AE({"providerDisposed"}), closed_provider_createscope |-> AE({"providerDisposed"}),
-     closed_provider_mustresolve |-> APANIC]
+     closed_provider_mustresolve |-> APANIC,
+     \* constructors whose last result is a concrete type implementing error (not the error interface)
+     ctor_pointer_error_reported |-> AE({"ctorError"}), ctor_pointer_error_retry |-> AOK,
+     ctor_pointer_error_build |-> AE({"ctorError", "build"}),
+     ctor_struct_error_add |-> AOK, ctor_struct_error_build |-> AOK, ctor_struct_error_resolve |-> AOK]
 
 GuardsAbuse(e) ==
     IF e.call \notin DOMAIN AbuseTable THEN {G("known_abuse_call", {"C15"}, FALSE, NONE)}
